@@ -30,7 +30,7 @@ def check(tier, seed):
     with C.WorkDir('C06') as wd:
         C.audit_sources()
         C.props_obligations(res, 'C06', wd)
-        cases = RC.run_suite(res, 'C06', tier, seed, 400, 15000, force='good', oracle=oracle)
+        cases = RC.run_suite(res, 'C06', tier, seed, 400, 15000, force='good', oracle=oracle, late_every=10)
         res.compare(cases)
         res.notes['answered'] = sum(1 for c in cases if 'ret=Ubx' in c.impl)
         res.oblige('correspondence request loop: answer and sends (Tie A)', not res.disagreements)
